@@ -11,6 +11,8 @@ from . import schedlib as SL
 from . import execlib as X
 from .c01 import SchedProp
 from .core import rp_import
+from .relay import Relay
+from .sides import Sides, Spec
 
 SCHED_CLAUSES = ['named_waiting_task_leaves_pool_canceled', 'only_named_tasks_canceled',
                  'named_task_met_later_never_started', 'named_task_never_started_after_request_consumed',
@@ -18,7 +20,7 @@ SCHED_CLAUSES = ['named_waiting_task_leaves_pool_canceled', 'only_named_tasks_ca
 EXEC_CLAUSES = ['exec:' + c for c in X.C08_EXEC_CLAUSES]
 
 
-class C08(SchedProp):
+class C08Base(SchedProp):
     id = 'C08'
     module = 'c08'
     props_files = ['Props/C08.v']
@@ -132,6 +134,26 @@ class C08(SchedProp):
         d = SchedProp.distribution(self, s)
         d['executor_cases'] = len(results) - len(s)
         return d
+
+
+def _relay_cancel(c):
+    """relay cases in which a cancel request occurs"""
+    return isinstance(c, dict) and (any(o[0] == 'cancel' for o in c.get('ops', [])) or
+                                    (c.get('kind') == 'pair' and c['a'][0] == 'cancel'))
+
+
+class C08(Sides, C08Base):
+    # the scheduler's raptor backlog, the third of the four places where cancellation is implemented
+    # (harness/relay.py: real work / _schedule_incoming / control_cb(cancel_tasks, register, unregister), RP.Relay.Model)
+    side_specs = [Spec('relay', 'relay', ['cancel_in_backlog', 'bystanders_unaffected', 'no_forward_after_final',
+                                          'exactly_one_place', 'linearizable'], only=_relay_cancel)]
+    clauses = C08Base.clauses + side_specs[0].clause_names()
+    extra_targets = C08Base.extra_targets + ['Relay/Oracle.vo', 'Relay/Proofs.vo', 'Relay/History.vo', 'Relay/Frame.vo',
+                                             'Relay/OracleProofs.vo']
+    model_targets = C08Base.model_targets + ['Relay/Oracle.vo']
+    corr_name = C08Base.corr_name + '; ' + Relay.corr_name
+    rule = C08Base.rule + '; ' + Relay.rule + ' (the sequences and thread pairs in which a cancel request occurs)'
+    trusted = [t.replace('raptor forwarding, ', '') for t in C08Base.trusted] + Relay.trusted
 
 
 PROP = C08()
